@@ -103,12 +103,24 @@ def main(tier='quick'):
                 runs.append(p.run)
                 recipes.append({'kind': 'fin_at', 'req': req, 'conv': name, 'k': k})
                 n_fin += 1
+                if k % 5 == 0 or k in (total, total - 1) or tier == 'thorough':
+                    # the same disconnection as a connection reset: reads fail instead of returning end-of-stream
+                    p = ulcorpus.play(sc, req, fin_at=k, hard=True)
+                    finish(p)
+                    runs.append(p.run)
+                    recipes.append({'kind': 'reset_at', 'req': req, 'conv': name, 'k': k})
+                    n_fin += 1
             for i in range(0, len(sc) + 1):
                 # disconnection between two local steps
                 p = ulcorpus.play(sc[:i] + [('FIN',)], req)
                 finish(p)
                 runs.append(p.run)
                 recipes.append({'kind': 'fin_after_op', 'req': req, 'conv': name, 'i': i})
+                n_fin += 1
+                p = ulcorpus.play(sc[:i] + [('RESET',)], req)
+                finish(p)
+                runs.append(p.run)
+                recipes.append({'kind': 'reset_after_op', 'req': req, 'conv': name, 'i': i})
                 n_fin += 1
                 p, st = silent(sc, req, i)
                 runs.append(p.run)
@@ -124,18 +136,32 @@ def main(tier='quick'):
                 samples.append({'recipe': recipes[-2], 'trace_tail': runs[-1].trace[-4:]})
     stats = ulcheck.validate(v, runs, recipes, chunk=2000)
     stats.pop('cells')
+    # association level (S3, real threads): a stop requested while the peer says nothing more must complete
+    from . import check_c14
+    import random as _random
+    assoc_cases = [check_c14.acceptor_stop_scenario(_random.Random(seed())),
+                   check_c14.raw_server_scenario('stop-with-silent-peer', _random.Random(seed()))]
+    for c in assoc_cases:
+        c.pop('handler_finished', None)
+        c['placement'] = 'association-level'
+    res2, _ = tlc.validate_traces('Trace_AssocLifecycle', 'Trace_AssocLifecycle.cfg', [[c] for c in assoc_cases])
+    for c, r in zip(assoc_cases, res2):
+        for clause in (r['bad_inv'] or []):
+            v.report({'site': 'asceprovider.kill', 'clause': clause},
+                     '%s: Association.kill() on an association whose peer is silent (a2r=%s r2a=%s)' % (clause, [x['k'] for x in c['a2r']], [x['k'] for x in c['r2a']]),
+                     replay={'recipe': {'kind': 'assoc-stop'}})
     ev = {
         'tier': tier, 'level': 'model_checking',
         'coverage': {
             'states': sum(r.distinct for _, r in mcs), 'transitions': sum(r.generated for _, r in mcs),
             'traces_validated_against_impl': stats['traces'],
             'trace_events_validated': stats['events'], 'rejected_traces': stats['rejected'],
-            'disconnection_points': n_fin, 'silence_points': n_sil, 'stop_points': n_stop,
+            'disconnection_points': n_fin, 'silence_points': n_sil, 'stop_points': n_stop, 'association_level_stop_scenarios': len(assoc_cases),
             'liveness_properties': ['Sta13Leaves', 'Sta2Leaves', 'FinHome'],
             'model_checking': {cfg: r.summary() for cfg, r in mcs},
             'samples': samples, 'exhaustive': False,
         },
-        'assumptions': ['virtual clock; the ARTIM limit is never hit exactly', 'provider level only (Association.kill/release are exercised by C14)'],
+        'assumptions': ['virtual clock; the ARTIM limit is never hit exactly', 'Association.kill with a silent peer is exercised on real threads (2 scenarios); other association-level endings under C14'],
     }
     return v.finish(ev)
 
@@ -145,8 +171,11 @@ def replay(doc):
     corp = ulcorpus.REQUESTOR if rec['req'] else ulcorpus.ACCEPTOR
     sc = corp[rec['conv']]
     v = Verdict('C13', 'quick')
-    if rec['kind'] == 'fin_at':
-        p = ulcorpus.play(sc, rec['req'], fin_at=rec['k'])
+    if rec['kind'] in ('fin_at', 'reset_at'):
+        p = ulcorpus.play(sc, rec['req'], fin_at=rec['k'], hard=rec['kind'] == 'reset_at')
+        finish(p)
+    elif rec['kind'] == 'reset_after_op':
+        p = ulcorpus.play(sc[:rec['i']] + [('RESET',)], rec['req'])
         finish(p)
     elif rec['kind'] == 'fin_after_op':
         p = ulcorpus.play(sc[:rec['i']] + [('FIN',)], rec['req'])
